@@ -462,6 +462,13 @@ def trso_line9(query: TRSOQuery, district: set[Variable]) -> Expression:
     return Sum.safe(my_product, district - query.target_outcomes)
 
 
+def _is_marginal_of_joint(expression: Expression) -> bool:
+    """Check if the expression is an unconditional probability, possibly summed over some variables."""
+    while isinstance(expression, Sum):
+        expression = expression.expression
+    return isinstance(expression, Probability) and not expression.parents
+
+
 def trso_line10(
     query: TRSOQuery,
     district: set[Variable],
@@ -479,15 +486,26 @@ def trso_line10(
         for node in query.graphs[query.domain].topological_sort()
         if not is_transport_node(node)
     ]
-    expressions = []
+    expressions: list[Expression] = []
+    # The conditionals are those of the distribution carried by the recursion. While that is the joint (or a
+    # marginal of it) they can be written down directly; once an earlier line 10 has replaced it by a
+    # c-factor they have to be derived from it, as line 9 does.
+    carried_is_joint = _is_marginal_of_joint(query.expression)
     for node in district:
         i = ordering.index(node)
-        pre_node = set(ordering[:i])
-        # note tikka splits this into two expressions that when taken together equal pre_node
-        distribution = Distribution.safe(node | pre_node)
-        expressions.append(
-            PopulationProbability(population=query.domain, distribution=distribution)
-        )
+        if carried_is_joint:
+            pre_node = set(ordering[:i])
+            # note tikka splits this into two expressions that when taken together equal pre_node
+            distribution = Distribution.safe(node | pre_node)
+            expressions.append(
+                PopulationProbability(population=query.domain, distribution=distribution)
+            )
+        else:
+            successors = set(ordering[i + 1 :])
+            expressions.append(
+                Sum.safe(query.expression, successors)
+                / Sum.safe(query.expression, successors | {node})
+            )
 
     new_query = deepcopy(query)
     new_query.target_interventions = query.target_interventions.intersection(district)
